@@ -1409,3 +1409,573 @@ Qed.
 Print Assumptions not_bytes_spec.
 Example not_bytes_ex : map (fun x => (255 - x)%N) [0%N; 170%N; 255%N] = [255%N; 85%N; 0%N].
 Proof. reflexivity. Qed.
+
+(* ------------------------------------------------------------------ *)
+(* 6. reads never change the value                                     *)
+(* ------------------------------------------------------------------ *)
+Theorem getbit_db now d args : fst (cmd_getbit now d args) = d.
+Proof.
+  unfold cmd_getbit.
+  repeat match goal with
+         | |- context [match ?x with _ => _ end] => destruct x
+         end; reflexivity.
+Qed.
+Print Assumptions getbit_db.
+
+Theorem bitcount_db now d args : fst (cmd_bitcount now d args) = d.
+Proof.
+  unfold cmd_bitcount.
+  repeat match goal with
+         | |- context [match ?x with _ => _ end] => destruct x
+         end; reflexivity.
+Qed.
+Print Assumptions bitcount_db.
+
+Theorem bitpos_db now d args : fst (cmd_bitpos now d args) = d.
+Proof.
+  unfold cmd_bitpos.
+  repeat match goal with
+         | |- context [match ?x with _ => _ end] => destruct x
+         end; reflexivity.
+Qed.
+Print Assumptions bitpos_db.
+Example read_cmds_ex :
+  let d0 := put empty_db (s2b "k"%string) (VStr [255%N; 1%N; 128%N]) None in
+  cmd_bitcount 0 d0 [s2b "k"%string; s2b "-2"%string; s2b "-1"%string] = (d0, RInt 2)
+  /\ cmd_bitcount 0 d0 [s2b "k"%string; s2b "6"%string; s2b "16"%string; s2b "bit"%string] = (d0, RInt 4)
+  /\ cmd_bitpos 0 d0 [s2b "k"%string; s2b "0"%string] = (d0, RInt 8)
+  /\ cmd_bitpos 0 d0 [s2b "k"%string; s2b "1"%string; s2b "1"%string] = (d0, RInt 15)
+  /\ cmd_getbit 0 d0 [s2b "k"%string; s2b "16"%string] = (d0, RInt 1).
+Proof. vm_compute. repeat split; reflexivity. Qed.
+
+Definition get_or_over (op : bfop) : Prop :=
+  match op with BGet _ _ _ | BOver _ => True | _ => False end.
+
+(* BITFIELD whose operations are all GET (OVERFLOW directives allowed) leaves the db alone *)
+Theorem bitfield_gets_db ro now d k rest ops :
+  parse_bf (S (length rest)) rest = BfOk ops -> Forall get_or_over ops ->
+  fst (cmd_bitfield ro now d (k :: rest)) = d.
+Proof.
+  intros Hp HF. unfold cmd_bitfield. rewrite Hp.
+  destruct (ro && existsb _ ops); [reflexivity|].
+  destruct (str_key now d k) as [cur|]; [|reflexivity].
+  assert (G : forall b e,
+    fst (let '(b', rs, ch) := run_bf ops (extend b (Z.to_nat (bf_need ops))) OWrap false in
+         (if ch then put d k (VStr b') e else d, RArr rs)) = d).
+  { intros b e.
+    destruct (run_bf_gets ops (extend b (Z.to_nat (bf_need ops))) OWrap false HF) as [G1 G2].
+    destruct (run_bf ops (extend b (Z.to_nat (bf_need ops))) OWrap false) as [[b' rs] ch].
+    cbn [fst snd] in *. subst ch. reflexivity. }
+  destruct cur as [[b e]|]; apply G.
+Qed.
+Print Assumptions bitfield_gets_db.
+
+(* BITFIELD_RO never changes the db, whatever its arguments *)
+Theorem bitfield_ro_db now d args : fst (cmd_bitfield true now d args) = d.
+Proof.
+  destruct args as [|k rest]; [reflexivity|].
+  destruct (parse_bf (S (length rest)) rest) as [ops|e] eqn:Hp.
+  - destruct (existsb (fun op => match op with BGet _ _ _ => false | _ => true end) ops) eqn:Ex.
+    + unfold cmd_bitfield. rewrite Hp, Ex. reflexivity.
+    + apply (bitfield_gets_db true now d k rest ops Hp).
+      apply Forall_forall. intros op Hop.
+      destruct op; cbn; auto;
+        (assert (existsb (fun op => match op with BGet _ _ _ => false | _ => true end) ops = true)
+          by (apply existsb_exists; eexists; split; [exact Hop | reflexivity]); congruence).
+  - unfold cmd_bitfield. rewrite Hp. reflexivity.
+Qed.
+Print Assumptions bitfield_ro_db.
+Example bitfield_get_ex :
+  let d0 := put empty_db (s2b "k"%string) (VStr [255%N; 1%N; 128%N]) None in
+  cmd_bitfield false 0 d0 [s2b "k"%string; s2b "GET"%string; s2b "i5"%string; s2b "6"%string;
+                           s2b "get"%string; s2b "u4"%string; s2b "#3"%string;
+                           s2b "GET"%string; s2b "u8"%string; s2b "100"%string]
+  = (d0, RArr [RInt (-8); RInt 1; RInt 0]).
+Proof. vm_compute. reflexivity. Qed.
+
+(* ------------------------------------------------------------------ *)
+(* BITFIELD at command level: types, offsets, zero extension           *)
+(* ------------------------------------------------------------------ *)
+Theorem parse_type_range t sg w :
+  parse_type t = Some (sg, w) -> (1 <= w)%nat /\ (w <= if sg then 64 else 63)%nat.
+Proof.
+  unfold parse_type. destruct t as [|c ds]; [discriminate|].
+  destruct (if N.eqb (lower_byte c) 105 then Some true
+            else if N.eqb (lower_byte c) 117 then Some false else None) as [sg'|]; [|discriminate].
+  destruct (parse_udec ds) as [n|]; [|discriminate].
+  destruct ((1 <=? n)%N && (n <=? (if sg' then 64 else 63))%N) eqn:E; [|discriminate].
+  intro H. injection H as <- <-.
+  apply andb_true_iff in E. destruct E as [E1 E2].
+  apply N.leb_le in E1. apply N.leb_le in E2. destruct sg'; lia.
+Qed.
+Print Assumptions parse_type_range.
+Example parse_type_ex :
+  parse_type (s2b "i64"%string) = Some (true, 64%nat) /\ parse_type (s2b "u63"%string) = Some (false, 63%nat)
+  /\ parse_type (s2b "U1"%string) = Some (false, 1%nat) /\ parse_type (s2b "u64"%string) = None
+  /\ parse_type (s2b "i65"%string) = None /\ parse_type (s2b "i0"%string) = None.
+Proof. vm_compute. repeat split; reflexivity. Qed.
+
+Theorem parse_off_scaled ds w :
+  parse_off (35%N :: ds) w =
+  match parse_udec ds with Some n => Some (Z.of_N n * Z.of_nat w) | None => None end.
+Proof. reflexivity. Qed.
+
+Theorem parse_off_nonneg o w off : parse_off o w = Some off -> 0 <= off.
+Proof.
+  unfold parse_off.
+  assert (G : match parse_i64 o with
+              | Some z => if z <? 0 then None else Some z
+              | None => None end = Some off -> 0 <= off).
+  { destruct (parse_i64 o) as [z|]; [|discriminate].
+    destruct (Z.ltb_spec z 0) as [Hz|Hz]; [discriminate|]. intro Hs. injection Hs as <-. exact Hz. }
+  destruct o as [|c ds]; [exact G|].
+  destruct (N.eq_dec c 35) as [->|Hne].
+  - destruct (parse_udec ds) as [n|]; [|discriminate]. intro H. injection H as <-. lia.
+  - destruct c as [|p]; [exact G|].
+    do 6 (destruct p as [p|p|]; try exact G). contradiction.
+Qed.
+Print Assumptions parse_off_nonneg.
+Example parse_off_ex :
+  parse_off (s2b "#3"%string) 5 = Some 15 /\ parse_off (s2b "17"%string) 5 = Some 17
+  /\ parse_off (s2b "-1"%string) 5 = None.
+Proof. vm_compute. repeat split; reflexivity. Qed.
+
+Definition op_ok (op : bfop) : Prop :=
+  match op with
+  | BGet sg w off | BSet sg w off _ | BIncr sg w off _ =>
+      (1 <= w)%nat /\ (w <= if sg then 64 else 63)%nat /\ 0 <= off /\ off + Z.of_nat w <= max_bit_off
+  | BOver _ => True
+  end.
+
+(* every parsed operation has a type i1..i64 / u1..u63 and a non-negative offset *)
+Theorem parse_bf_ok fuel : forall args ops, parse_bf fuel args = BfOk ops -> Forall op_ok ops.
+Proof.
+  induction fuel as [|fuel IH]; intros args ops H; [discriminate|].
+  cbn [parse_bf] in H. destruct args as [|a r]; [injection H as <-; constructor|].
+  destruct (is_kw a "GET").
+  { destruct r as [|t [|o rest]]; try discriminate.
+    destruct (parse_type t) as [[sg w]|] eqn:Et; [|discriminate].
+    destruct (parse_off o w) as [off|] eqn:Eo; [|discriminate].
+    destruct (Z.leb_spec max_bit_off (off + Z.of_nat w - 1)); [discriminate|].
+    destruct (parse_bf fuel rest) as [ops'|] eqn:Er; [|discriminate].
+    injection H as <-. constructor; [|eapply IH; exact Er].
+    apply parse_type_range in Et. apply parse_off_nonneg in Eo. cbn [op_ok]. lia. }
+  destruct (is_kw a "SET" || is_kw a "INCRBY").
+  { destruct r as [|t [|o [|v rest]]]; try discriminate.
+    destruct (parse_type t) as [[sg w]|] eqn:Et; [|discriminate].
+    destruct (parse_off o w) as [off|] eqn:Eo; [|discriminate].
+    destruct (Z.leb_spec max_bit_off (off + Z.of_nat w - 1)); [discriminate|].
+    destruct (parse_i64 v) as [vz|]; [|discriminate].
+    destruct (parse_bf fuel rest) as [ops'|] eqn:Er; [|discriminate].
+    injection H as <-. constructor; [|eapply IH; exact Er].
+    apply parse_type_range in Et. apply parse_off_nonneg in Eo.
+    destruct (is_kw a "SET"); cbn [op_ok]; lia. }
+  destruct (is_kw a "OVERFLOW"); [|discriminate].
+  destruct r as [|p rest]; [discriminate|].
+  destruct (is_kw p "WRAP").
+  { destruct (parse_bf fuel rest) as [ops'|] eqn:Er; [|discriminate].
+    injection H as <-. constructor; [exact I | eapply IH; exact Er]. }
+  destruct (is_kw p "SAT").
+  { destruct (parse_bf fuel rest) as [ops'|] eqn:Er; [|discriminate].
+    injection H as <-. constructor; [exact I | eapply IH; exact Er]. }
+  destruct (is_kw p "FAIL"); [|discriminate].
+  destruct (parse_bf fuel rest) as [ops'|] eqn:Er; [|discriminate].
+  injection H as <-. constructor; [exact I | eapply IH; exact Er].
+Qed.
+Print Assumptions parse_bf_ok.
+
+Definition bf_need_step (m : Z) (op : bfop) : Z :=
+  match op with
+  | BSet _ w off _ | BIncr _ w off _ => Z.max m ((off + Z.of_nat w - 1) / 8 + 1)
+  | _ => m
+  end.
+
+Lemma bf_need_fold ops : forall m0,
+  m0 <= fold_left bf_need_step ops m0 /\
+  Forall (fun op => match op with
+                    | BSet _ w off _ | BIncr _ w off _ =>
+                        (off + Z.of_nat w - 1) / 8 + 1 <= fold_left bf_need_step ops m0
+                    | _ => True end) ops.
+Proof.
+  induction ops as [|op r IH]; intro m0; cbn [fold_left]; [split; [lia | constructor]|].
+  destruct (IH (bf_need_step m0 op)) as [I1 I2].
+  assert (m0 <= bf_need_step m0 op) by (destruct op; cbn [bf_need_step]; lia).
+  split; [lia|]. constructor; [|exact I2].
+  destruct op; cbn [bf_need_step] in *; try exact I; lia.
+Qed.
+
+(* the string is zero-extended just enough for every write to fit *)
+Theorem bf_need_fits ops b :
+  Forall op_ok ops -> Forall (op_fits (length (extend b (Z.to_nat (bf_need ops))))) ops.
+Proof.
+  intro Hok. destruct (bf_need_fold ops 0) as [N0 NF].
+  change (fold_left bf_need_step ops 0) with (bf_need ops) in *.
+  rewrite extend_length.
+  rewrite Forall_forall in *. intros op Hop. specialize (Hok op Hop). specialize (NF op Hop).
+  destruct op as [sg w off|sg w off v|sg w off v|o']; cbn [op_fits op_ok] in *; try exact I.
+  - pose proof (Z.div_mod (off + Z.of_nat w - 1) 8 ltac:(lia)).
+    pose proof (Z.mod_pos_bound (off + Z.of_nat w - 1) 8 ltac:(lia)). lia.
+  - pose proof (Z.div_mod (off + Z.of_nat w - 1) 8 ltac:(lia)).
+    pose proof (Z.mod_pos_bound (off + Z.of_nat w - 1) 8 ltac:(lia)). lia.
+Qed.
+Print Assumptions bf_need_fits.
+
+(* BITFIELD: the operations run on the zero-extended old value; the stored
+   string has exactly the extended length, is well formed, keeps its deadline,
+   and is stored only when some write succeeded *)
+Theorem bitfield_spec now d k rest ops cur :
+  parse_bf (S (length rest)) rest = BfOk ops -> str_key now d k = Some cur ->
+  let b0 := extend (cur_bytes cur) (Z.to_nat (bf_need ops)) in
+  let r := run_bf ops b0 OWrap false in
+  cmd_bitfield false now d (k :: rest) =
+    (if snd r then put d k (VStr (fst (fst r))) (cur_exp cur) else d, RArr (snd (fst r)))
+  /\ Forall op_ok ops /\ Forall (op_fits (length b0)) ops
+  /\ length (fst (fst r)) = Nat.max (length (cur_bytes cur)) (Z.to_nat (bf_need ops))
+  /\ (wf_bytes (cur_bytes cur) -> wf_bytes (fst (fst r)))
+  /\ (snd r = false -> fst (fst r) = b0).
+Proof.
+  intros Hp Hk b0 r.
+  pose proof (parse_bf_ok _ _ _ Hp) as Hok.
+  pose proof (bf_need_fits ops (cur_bytes cur) Hok) as Hfit. fold b0 in Hfit.
+  split.
+  { unfold cmd_bitfield. rewrite Hp, Hk. cbn [andb].
+    subst r b0. destruct cur as [[b e]|]; cbn [cur_bytes cur_exp];
+      destruct (run_bf ops _ OWrap false) as [[b' rs] ch]; reflexivity. }
+  split; [exact Hok|]. split; [exact Hfit|].
+  split; [subst r; rewrite run_bf_length by exact Hfit; subst b0; apply extend_length|].
+  split; [intro Hwf; subst r; apply run_bf_wf; subst b0; apply wf_extend; exact Hwf|].
+  intro Hch. subst r. destruct (run_bf ops b0 OWrap false) as [[b' rs] ch] eqn:E.
+  cbn [fst snd] in *. subst ch. eapply run_bf_unchanged. exact E.
+Qed.
+Print Assumptions bitfield_spec.
+Example bitfield_ex :
+  let d0 := put empty_db (s2b "k"%string) (VStr [255%N]) (Some 77) in
+  let r := cmd_bitfield false 0 d0
+     [s2b "k"%string; s2b "INCRBY"%string; s2b "u4"%string; s2b "#3"%string; s2b "17"%string;
+      s2b "OVERFLOW"%string; s2b "SAT"%string; s2b "SET"%string; s2b "i8"%string; s2b "0"%string; s2b "-200"%string;
+      s2b "OVERFLOW"%string; s2b "FAIL"%string; s2b "INCRBY"%string; s2b "i8"%string; s2b "0"%string; s2b "-1"%string;
+      s2b "GET"%string; s2b "i8"%string; s2b "0"%string] in
+  snd r = RArr [RInt 1; RInt (-1); RNil; RInt (-128)]
+  /\ str_key 0 (fst r) (s2b "k"%string) = Some (Some ([128%N; 1%N], Some 77)).
+Proof. vm_compute. split; reflexivity. Qed.
+
+(* ------------------------------------------------------------------ *)
+(* BITCOUNT / BITPOS at command level                                  *)
+(* ------------------------------------------------------------------ *)
+(* number of set bits of b with index in [a, z] *)
+Definition count_bits (b : bytes) (a z : Z) : Z := Zlen (filter (bit_at b) (zrange a z)).
+
+Theorem bitcount_all_spec now d k b exp :
+  str_key now d k = Some (Some (b, exp)) ->
+  cmd_bitcount now d [k] = (d, RInt (count_bits b 0 (8 * Z.of_nat (length b) - 1))).
+Proof.
+  intro Hk. unfold cmd_bitcount. rewrite Hk. rewrite count_true_all. reflexivity.
+Qed.
+Print Assumptions bitcount_all_spec.
+
+(* BITCOUNT key start end  (byte indexes) *)
+Theorem bitcount_byte_spec now d k sb eb s e b exp :
+  parse_i64 sb = Some s -> parse_i64 eb = Some e ->
+  str_key now d k = Some (Some (b, exp)) ->
+  cmd_bitcount now d [k; sb; eb] =
+  (d, RInt (match redis_range (Z.of_nat (length b)) s e with
+            | Some (a, z) => count_bits b (8 * a) (8 * z + 7)
+            | None => 0 end)).
+Proof.
+  intros Hs He Hk. unfold cmd_bitcount. rewrite Hs, He, Hk. unfold Zlen.
+  rewrite <- norm_range_redis.
+  destruct (norm_range (Z.of_nat (length b)) s e) as [[a z]|] eqn:E; [|reflexivity].
+  apply norm_range_bounds in E. rewrite count_true_slice by lia. reflexivity.
+Qed.
+Print Assumptions bitcount_byte_spec.
+
+(* BITCOUNT key start end BIT|BYTE *)
+Theorem bitcount_unit_spec now d k sb eb u s e bit b exp :
+  parse_i64 sb = Some s -> parse_i64 eb = Some e -> unit_kw u = Some bit ->
+  str_key now d k = Some (Some (b, exp)) ->
+  cmd_bitcount now d [k; sb; eb; u] =
+  (d, RInt (if bit
+            then match redis_range (8 * Z.of_nat (length b)) s e with
+                 | Some (a, z) => count_bits b a z | None => 0 end
+            else match redis_range (Z.of_nat (length b)) s e with
+                 | Some (a, z) => count_bits b (8 * a) (8 * z + 7) | None => 0 end)).
+Proof.
+  intros Hs He Hu Hk. unfold cmd_bitcount. rewrite Hs, He, Hu, Hk. unfold Zlen.
+  rewrite <- !norm_range_redis. destruct bit.
+  - destruct (norm_range (8 * Z.of_nat (length b)) s e) as [[a z]|] eqn:E; [|reflexivity].
+    apply norm_range_bounds in E. rewrite count_true_slice by lia. reflexivity.
+  - destruct (norm_range (Z.of_nat (length b)) s e) as [[a z]|] eqn:E; [|reflexivity].
+    apply norm_range_bounds in E. rewrite count_true_slice by lia. reflexivity.
+Qed.
+Print Assumptions bitcount_unit_spec.
+
+Theorem bitcount_missing now d k rest r :
+  str_key now d k = Some None -> cmd_bitcount now d (k :: rest) = (d, r) ->
+  r = RInt 0 \/ r = argerr.
+Proof.
+  intros Hk. unfold cmd_bitcount. rewrite Hk.
+  repeat match goal with
+         | |- context [match ?x with _ => _ end] => destruct x
+         end; intro H; injection H as <-; auto.
+Qed.
+
+Theorem find_bit_slice_none bs v a z : 0 <= a -> z < 8 * Z.of_nat (length bs) ->
+  find_bit (slice (bits_of bs) a z) v a = None <->
+  (forall i, a <= i <= z -> bit_at bs i <> v).
+Proof.
+  intros Ha Hz. rewrite find_bit_none.
+  rewrite (slice_map _ false) by (rewrite ?bits_of_length; lia).
+  split.
+  - intros H i Hi. rewrite bit_at_nth by lia. apply H.
+    apply in_map_iff. exists i. split; [reflexivity | apply in_zrange; exact Hi].
+  - intros H x Hx. apply in_map_iff in Hx. destruct Hx as (i & <- & Hi).
+    apply in_zrange in Hi. rewrite <- bit_at_nth by lia. apply H. exact Hi.
+Qed.
+Print Assumptions find_bit_slice_none.
+
+(* p is the answer of a search for bit value v over the indices [a, z] *)
+Definition first_bit (b : bytes) (v : bool) (a z p : Z) : Prop :=
+  (p = -1 /\ forall i, a <= i <= z -> bit_at b i <> v) \/
+  (a <= p <= z /\ bit_at b p = v /\ forall i, a <= i < p -> bit_at b i <> v).
+
+Lemma find_bit_first b v a z : 0 <= a -> z < 8 * Z.of_nat (length b) ->
+  first_bit b v a z (match find_bit (slice (bits_of b) a z) v a with Some p => p | None => -1 end).
+Proof.
+  intros Ha Hz. destruct (find_bit (slice (bits_of b) a z) v a) as [p|] eqn:E.
+  - right. apply find_bit_slice; assumption.
+  - left. split; [reflexivity|]. apply find_bit_slice_none; assumption.
+Qed.
+
+(* BITPOS key bit start end [BIT|BYTE]: explicit end, so no virtual zero padding *)
+Theorem bitpos_range_spec now d k bvb sb eb u bitv s e bit b exp :
+  parse_i64 bvb = Some bitv -> bitv = 0 \/ bitv = 1 ->
+  parse_i64 sb = Some s -> parse_i64 eb = Some e -> unit_kw u = Some bit ->
+  str_key now d k = Some (Some (b, exp)) ->
+  exists p, cmd_bitpos now d [k; bvb; sb; eb; u] = (d, RInt p) /\
+    if bit
+    then match redis_range (8 * Z.of_nat (length b)) s e with
+         | Some (a, z) => first_bit b (bitv =? 1) a z p | None => p = -1 end
+    else match redis_range (Z.of_nat (length b)) s e with
+         | Some (a, z) => first_bit b (bitv =? 1) (8 * a) (8 * z + 7) p | None => p = -1 end.
+Proof.
+  intros Hbv Hv01 Hs He Hu Hk. unfold cmd_bitpos. rewrite Hbv, Hs, He, Hu, Hk. unfold Zlen.
+  assert ((bitv =? 0) || (bitv =? 1) = true) as -> by (destruct Hv01; subst; reflexivity).
+  cbn [negb]. rewrite <- !norm_range_redis. destruct bit.
+  - destruct (norm_range (8 * Z.of_nat (length b)) s e) as [[a z]|] eqn:E;
+      [|exists (-1); split; reflexivity].
+    apply norm_range_bounds in E.
+    pose proof (find_bit_first b (bitv =? 1) a z ltac:(lia) ltac:(lia)) as F.
+    destruct (find_bit (slice (bits_of b) a z) (bitv =? 1) a) as [p|].
+    + exists p. split; [reflexivity | exact F].
+    + exists (-1). split; [rewrite andb_false_r; reflexivity | exact F].
+  - destruct (norm_range (Z.of_nat (length b)) s e) as [[a z]|] eqn:E;
+      [|exists (-1); split; reflexivity].
+    apply norm_range_bounds in E.
+    pose proof (find_bit_first b (bitv =? 1) (8 * a) (8 * z + 7) ltac:(lia) ltac:(lia)) as F.
+    destruct (find_bit (slice (bits_of b) (8 * a) (8 * z + 7)) (bitv =? 1) (8 * a)) as [p|].
+    + exists p. split; [reflexivity | exact F].
+    + exists (-1). split; [rewrite andb_false_r; reflexivity | exact F].
+Qed.
+Print Assumptions bitpos_range_spec.
+
+(* BITPOS key bit start end (byte indexes) *)
+Theorem bitpos_byte_spec now d k bvb sb eb bitv s e b exp :
+  parse_i64 bvb = Some bitv -> bitv = 0 \/ bitv = 1 ->
+  parse_i64 sb = Some s -> parse_i64 eb = Some e ->
+  str_key now d k = Some (Some (b, exp)) ->
+  exists p, cmd_bitpos now d [k; bvb; sb; eb] = (d, RInt p) /\
+    match redis_range (Z.of_nat (length b)) s e with
+    | Some (a, z) => first_bit b (bitv =? 1) (8 * a) (8 * z + 7) p | None => p = -1 end.
+Proof.
+  intros Hbv Hv01 Hs He Hk. unfold cmd_bitpos. rewrite Hbv, Hs, He, Hk. unfold Zlen.
+  assert ((bitv =? 0) || (bitv =? 1) = true) as -> by (destruct Hv01; subst; reflexivity).
+  cbn [negb]. rewrite <- !norm_range_redis.
+  destruct (norm_range (Z.of_nat (length b)) s e) as [[a z]|] eqn:E;
+    [|exists (-1); split; reflexivity].
+  apply norm_range_bounds in E.
+  pose proof (find_bit_first b (bitv =? 1) (8 * a) (8 * z + 7) ltac:(lia) ltac:(lia)) as F.
+  destruct (find_bit (slice (bits_of b) (8 * a) (8 * z + 7)) (bitv =? 1) (8 * a)) as [p|].
+  - exists p. split; [reflexivity | exact F].
+  - exists (-1). split; [rewrite andb_false_r; reflexivity | exact F].
+Qed.
+Print Assumptions bitpos_byte_spec.
+
+Lemma norm_range_whole L : 0 < L -> norm_range L 0 (-1) = Some (0, L - 1).
+Proof.
+  intro HL. unfold norm_range.
+  change (0 <? 0) with false. change (-1 <? 0) with true. cbn [andb].
+  repeat match goal with
+         | |- context [if ?c then _ else _] => destruct c eqn:?
+         | H : context [if ?c then _ else _] |- _ => destruct c eqn:?
+         end;
+    try reflexivity; try (f_equal; f_equal; lia); exfalso; lia.
+Qed.
+
+(* BITPOS key bit: the whole string; a search for 0 that fails answers the
+   first bit after the string (virtual zero padding), for a non-empty string *)
+Theorem bitpos_all_spec now d k bvb bitv b exp :
+  parse_i64 bvb = Some bitv -> bitv = 0 \/ bitv = 1 ->
+  str_key now d k = Some (Some (b, exp)) -> b <> [] ->
+  let n := 8 * Z.of_nat (length b) in
+  exists p, cmd_bitpos now d [k; bvb] = (d, RInt p) /\
+    ((0 <= p < n /\ bit_at b p = (bitv =? 1) /\ forall i, 0 <= i < p -> bit_at b i <> (bitv =? 1))
+     \/ ((forall i, 0 <= i < n -> bit_at b i <> (bitv =? 1)) /\ p = if bitv =? 0 then n else -1)).
+Proof.
+  intros Hbv Hv01 Hk Hne n. unfold cmd_bitpos. rewrite Hbv, Hk. unfold Zlen.
+  assert ((bitv =? 0) || (bitv =? 1) = true) as -> by (destruct Hv01; subst; reflexivity).
+  cbn [negb].
+  assert (Hlen : 0 < Z.of_nat (length b)) by (destruct b; [contradiction | cbn [length]; lia]).
+  rewrite (norm_range_whole _ Hlen).
+  destruct (find_bit (slice (bits_of b) (8 * 0) (8 * (Z.of_nat (length b) - 1) + 7)) (bitv =? 1) (8 * 0))
+    as [p|] eqn:EF.
+  - exists p. split; [reflexivity|]. left.
+    apply find_bit_slice in EF; [|lia|lia]. destruct EF as (F1 & F2 & F3).
+    subst n. split; [lia|]. split; [exact F2|]. intros i Hi. apply F3. lia.
+  - exists (if bitv =? 0 then n else -1). split.
+    + rewrite andb_true_r. destruct (bitv =? 0); reflexivity.
+    + right. split; [|reflexivity]. intros i Hi.
+      apply (proj1 (find_bit_slice_none b (bitv =? 1) (8 * 0) (8 * (Z.of_nat (length b) - 1) + 7)
+                      ltac:(lia) ltac:(lia)) EF). subst n. lia.
+Qed.
+Print Assumptions bitpos_all_spec.
+
+Theorem bitpos_missing now d k bvb bitv :
+  parse_i64 bvb = Some bitv -> bitv = 0 \/ bitv = 1 -> str_key now d k = Some None ->
+  cmd_bitpos now d [k; bvb] = (d, RInt (if bitv =? 1 then -1 else 0)).
+Proof.
+  intros Hbv Hv01 Hk. unfold cmd_bitpos. rewrite Hbv, Hk.
+  assert ((bitv =? 0) || (bitv =? 1) = true) as -> by (destruct Hv01; subst; reflexivity).
+  reflexivity.
+Qed.
+Example bitpos_ex :
+  let d0 := put empty_db (s2b "k"%string) (VStr [255%N; 240%N; 0%N]) None in
+  cmd_bitpos 0 d0 [s2b "k"%string; s2b "0"%string] = (d0, RInt 12)
+  /\ cmd_bitpos 0 d0 [s2b "k"%string; s2b "1"%string; s2b "2"%string] = (d0, RInt (-1))
+  /\ cmd_bitpos 0 d0 [s2b "k"%string; s2b "1"%string; s2b "-3"%string; s2b "-1"%string; s2b "bit"%string] = (d0, RInt (-1))
+  /\ cmd_bitpos 0 d0 [s2b "k"%string; s2b "0"%string; s2b "1"%string; s2b "-1"%string; s2b "BYTE"%string] = (d0, RInt 12)
+  /\ cmd_bitpos 0 (put empty_db (s2b "k"%string) (VStr [255%N]) None) [s2b "k"%string; s2b "0"%string]
+     = (put empty_db (s2b "k"%string) (VStr [255%N]) None, RInt 8).
+Proof. vm_compute. repeat split; reflexivity. Qed.
+
+(* ------------------------------------------------------------------ *)
+(* BITOP at command level                                              *)
+(* ------------------------------------------------------------------ *)
+Open Scope string_scope.
+Definition bitop_fn (op : bytes) : option (option (bool -> bool -> bool)) :=
+  if is_kw op "AND" then Some (Some andb) else
+  if is_kw op "OR" then Some (Some orb) else
+  if is_kw op "XOR" then Some (Some xorb) else
+  if is_kw op "NOT" then Some None else None.
+Close Scope string_scope.
+
+Lemma fold_max_ge l : forall m0,
+  (m0 <= fold_left Nat.max l m0)%nat /\ Forall (fun x => (x <= fold_left Nat.max l m0)%nat) l.
+Proof.
+  induction l as [|x l IH]; intro m0; cbn [fold_left]; [split; [lia | constructor]|].
+  destruct (IH (Nat.max m0 x)) as [I1 I2]. split; [lia|]. constructor; [lia | exact I2].
+Qed.
+
+Lemma str_operands_cons now d k ks ops :
+  str_operands now d (k :: ks) = Some ops ->
+  exists cur rest, str_key now d k = Some cur /\ str_operands now d ks = Some rest /\
+                   ops = cur_bytes cur :: rest.
+Proof.
+  cbn [str_operands]. destruct (str_key now d k) as [cur|]; [|discriminate].
+  destruct (str_operands now d ks) as [rest|]; [|discriminate].
+  intro H. injection H as <-. exists cur, rest. destruct cur as [[b e]|]; auto.
+Qed.
+
+Lemma fold_bytes_op_length g n rest : forall acc,
+  length acc = n -> Forall (fun o => (length o <= n)%nat) rest ->
+  length (fold_left (bytes_op g n) rest acc) = n.
+Proof.
+  induction rest as [|o rest IH]; intros acc Lacc HF; [exact Lacc|].
+  inversion HF as [|? ? Ho Hr]; subst. cbn [fold_left]. apply IH; [|exact Hr].
+  apply bytes_op_spec; [lia | exact Ho].
+Qed.
+
+Lemma fold_bytes_op_wf g n rest : forall acc,
+  length acc = n -> Forall (fun o => (length o <= n)%nat) rest -> rest <> [] ->
+  wf_bytes (fold_left (bytes_op g n) rest acc).
+Proof.
+  induction rest as [|o rest IH]; intros acc Lacc HF Hne; [contradiction|].
+  inversion HF as [|? ? Ho Hr]; subst. cbn [fold_left].
+  destruct (bytes_op_spec g (length acc) acc o ltac:(lia) Ho) as (L & W & _).
+  destruct rest as [|o2 rest2]; [exact W|].
+  apply IH; [exact L | exact Hr | discriminate].
+Qed.
+
+(* BITOP AND/OR/XOR dst src1 src2 ...: the result has the length of the longest
+   operand and bit i is the fold of the operator over bit i of the operands,
+   short operands reading as zeros; it is stored (or dst deleted when empty) *)
+Theorem bitop_binary_spec now d op dst s1 srest g a rest :
+  bitop_fn op = Some (Some g) ->
+  str_operands now d (s1 :: srest) = Some (a :: rest) ->
+  let n := fold_left Nat.max (map (@length byte) (a :: rest)) 0%nat in
+  exists r, cmd_bitop now d (op :: dst :: s1 :: srest) = (store_str_or_del d dst r, RInt (Zlen r))
+    /\ length r = n
+    /\ (forall o, In o (a :: rest) -> (length o <= n)%nat)
+    /\ (rest <> [] \/ wf_bytes a -> wf_bytes r)
+    /\ (forall i, 0 <= i < 8 * Z.of_nat n ->
+          bit_at r i = fold_left g (map (fun o => bit_at o i) rest) (bit_at a i)).
+Proof.
+  intros Hf Hops n.
+  destruct (fold_max_ge (map (@length byte) (a :: rest)) 0%nat) as [_ Hge]. fold n in Hge.
+  assert (Hall : forall o, In o (a :: rest) -> (length o <= n)%nat).
+  { intros o Ho. rewrite Forall_forall in Hge. apply Hge. apply in_map. exact Ho. }
+  assert (Ha : (length a <= n)%nat) by (apply Hall; left; reflexivity).
+  assert (Hrest : Forall (fun o => (length o <= n)%nat) rest)
+    by (apply Forall_forall; intros o Ho; apply Hall; right; exact Ho).
+  assert (Lacc : length (extend a n) = n) by (rewrite extend_length; lia).
+  exists (fold_left (bytes_op g n) rest (extend a n)).
+  split.
+  { unfold cmd_bitop. fold (bitop_fn op). rewrite Hf, Hops. reflexivity. }
+  split.
+  { apply fold_bytes_op_length; assumption. }
+  split; [exact Hall|].
+  split.
+  { intros [Hne|Hwf]; [apply fold_bytes_op_wf; assumption|].
+    destruct rest as [|o rest']; [apply wf_extend; exact Hwf|].
+    apply fold_bytes_op_wf; [assumption | assumption | discriminate]. }
+  intros i Hi.
+  destruct (fold_bytes_op_bit_at g n rest i (extend a n) Lacc Hrest Hi) as [_ B].
+  rewrite B, bit_at_extend. reflexivity.
+Qed.
+Print Assumptions bitop_binary_spec.
+
+(* BITOP NOT dst src *)
+Theorem bitop_not_spec now d op dst s1 a :
+  bitop_fn op = Some None -> str_operands now d [s1] = Some [a] ->
+  let r := map (fun x => (255 - x)%N) a in
+  cmd_bitop now d [op; dst; s1] = (store_str_or_del d dst r, RInt (Zlen r)).
+Proof.
+  intros Hf Hops r. unfold cmd_bitop. fold (bitop_fn op). rewrite Hf, Hops. reflexivity.
+Qed.
+Print Assumptions bitop_not_spec.
+
+(* what "stored" means: afterwards dst reads as the result, without deadline *)
+Theorem store_str_or_del_spec now d dst r :
+  str_key now (store_str_or_del d dst r) dst = Some (match r with [] => None | _ => Some (r, None) end)
+  /\ forall k', k' <> dst -> lookup now (store_str_or_del d dst r) k' = lookup now d k'.
+Proof.
+  unfold store_str_or_del. destruct r as [|x r].
+  - destruct (aget (d_map d) dst) as [e|] eqn:E.
+    + split; [unfold str_key; rewrite lookup_del_same; reflexivity|].
+      intros k' Hne. apply lookup_del_other. exact Hne.
+    + split; [unfold str_key, lookup; rewrite E; reflexivity | reflexivity].
+  - split.
+    + unfold str_key. rewrite lookup_put_same. reflexivity.
+    + intros k' Hne. apply lookup_put_other. exact Hne.
+Qed.
+Print Assumptions store_str_or_del_spec.
+Example bitop_ex :
+  let d0 := put (put empty_db (s2b "a"%string) (VStr [255%N; 15%N; 1%N]) None)
+                (s2b "b"%string) (VStr [240%N]) None in
+  let r := cmd_bitop 0 d0 [s2b "xor"%string; s2b "c"%string; s2b "a"%string; s2b "b"%string; s2b "nokey"%string] in
+  snd r = RInt 3 /\ str_key 0 (fst r) (s2b "c"%string) = Some (Some ([15%N; 15%N; 1%N], None))
+  /\ str_key 0 (fst (cmd_bitop 0 d0 [s2b "NOT"%string; s2b "c"%string; s2b "b"%string])) (s2b "c"%string)
+     = Some (Some ([15%N], None))
+  /\ snd (cmd_bitop 0 d0 [s2b "and"%string; s2b "a"%string; s2b "a"%string; s2b "nokey"%string]) = RInt 3
+  /\ str_key 0 (fst (cmd_bitop 0 d0 [s2b "and"%string; s2b "a"%string; s2b "a"%string; s2b "nokey"%string])) (s2b "a"%string)
+     = Some (Some ([0%N; 0%N; 0%N], None)).
+Proof. vm_compute. repeat split; reflexivity. Qed.
